@@ -184,3 +184,71 @@ m('C15','benign-spoof-single-if',W,
   '\tif m.Source != "" {\n\t\tif m.Source != c.Id() {\n\t\t\treturn group.ProtocolError("spoofed client id")\n\t\t}\n\t}\n',
   '\tif m.Source != "" && m.Source != c.Id() {\n\t\treturn group.ProtocolError("spoofed client id")\n\t}\n',
   '','','nested ifs merged into one condition',benign=True)
+# ---------------- C17 ----------------
+A='webserver/api.go'
+D='group/description.go'
+m('C17','stats-unauthenticated',A,
+  '\t\tif !checkAdmin(w, r, "") {\n\t\t\treturn\n\t\t}\n\t\tif r.Method != "HEAD" && r.Method != "GET" {\n\t\t\tmethodNotAllowed(w, "HEAD, GET")\n\t\t\treturn\n\t\t}\n\t\tw.Header().Set("cache-control", "no-cache")',
+  '\t\tif r.Method != "HEAD" && r.Method != "GET" {\n\t\t\tmethodNotAllowed(w, "HEAD, GET")\n\t\t\treturn\n\t\t}\n\t\tw.Header().Set("cache-control", "no-cache")',
+  'R17.1','stats.GetGroups','server statistics readable without authentication',quick=True)
+m('C17','group-get-before-auth',A,
+  '\tif !checkAdmin(w, r, g) {\n\t\treturn\n\t}\n\n\tif r.Method == "HEAD" || r.Method == "GET" {\n\t\tdesc, etag, err := group.GetSanitisedDescription(g)',
+  '\tif r.Method != "HEAD" && r.Method != "GET" && !checkAdmin(w, r, g) {\n\t\treturn\n\t}\n\n\tif r.Method == "HEAD" || r.Method == "GET" {\n\t\tdesc, etag, err := group.GetSanitisedDescription(g)',
+  'R17.1','group.GetSanitisedDescription','group definitions readable without authentication')
+m('C17','users-wrong-group-auth',A,
+  '\t\tif !checkAdmin(w, r, g) {\n\t\t\treturn\n\t\t}\n\t\tif r.Method != "HEAD" && r.Method != "GET" {\n\t\t\tmethodNotAllowed(w, "HEAD, GET")\n\t\t\treturn\n\t\t}\n\t\tusers, etag, err := group.GetUsers(g)',
+  '\t\tif !checkAdmin(w, r, pth[1:]) {\n\t\t\treturn\n\t\t}\n\t\tif r.Method != "HEAD" && r.Method != "GET" {\n\t\t\tmethodNotAllowed(w, "HEAD, GET")\n\t\t\treturn\n\t\t}\n\t\tusers, etag, err := group.GetUsers(g)',
+  'R17.1','group.GetUsers','authentication checked against another group than the one listed')
+m('C17','password-wildcard-explicit',A,
+  '\tif wildcard {\n\t\tif !checkAdmin(w, r, g) {\n\t\t\treturn\n\t\t}\n\t} else {\n\t\tif !checkAdminOrExplicitPassword(w, r, g, user) {\n\t\t\treturn\n\t\t}\n\t}',
+  '\tif !checkAdminOrExplicitPassword(w, r, g, user) {\n\t\treturn\n\t}',
+  'R17.1','explicit-password authentication only for a named user','wildcard user\'s password changeable with the empty user\'s password')
+m('C17','keys-delete-unauth',A,
+  '\tif !checkAdmin(w, r, g) {\n\t\treturn\n\t}\n\n\tif r.Method == "PUT" {\n\t\t// cannot use getJSON',
+  '\tif r.Method != "DELETE" && !checkAdmin(w, r, g) {\n\t\treturn\n\t}\n\n\tif r.Method == "PUT" {\n\t\t// cannot use getJSON',
+  'R17.1','group.SetKeys','token keys deletable without authentication')
+m('C17','token-delete-other-group',A,
+  '\t\tif old.Group != g {\n\t\t\thttp.NotFound(w, r)\n\t\t\treturn\n\t\t}\n\n\t\tdone := checkPreconditions(w, r, etag)\n\t\tif done {\n\t\t\treturn\n\t\t}\n\n\t\terr = token.Delete(t, etag)',
+  '\t\t_ = old\n\n\t\tdone := checkPreconditions(w, r, etag)\n\t\tif done {\n\t\t\treturn\n\t\t}\n\n\t\terr = token.Delete(t, etag)',
+  'R17.1','deleted token belongs','a group admin deletes another group\'s token')
+m('C17','token-read-other-group',A,
+  '\t\tif old.Group != g {\n\t\t\thttp.NotFound(w, r)\n\t\t\treturn\n\t\t}\n\t\ttok := old.Clone()',
+  '\t\ttok := old.Clone()',
+  'R17.1','disclosed token belongs','a group admin reads another group\'s token')
+m('C17','isadmin-any-permission',A,
+  'if slices.Contains(perms, "admin") {\n\t\treturn true\n\t}','if slices.Contains(perms, "op") {\n\t\treturn true\n\t}',
+  'R17.2','return true','any group member is an administrator')
+m('C17','isadmin-token-non-root',A,
+  '\tif groupname == "" {\n\t\tif creds.Token != "" {\n\t\t\tok, err := checkGlobalAdminToken(creds.Token)\n\t\t\tif err == nil && ok {\n\t\t\t\treturn true\n\t\t\t}\n\t\t}\n\t\treturn false\n\t}',
+  '\tif creds.Token != "" {\n\t\tok, err := checkGlobalAdminToken(creds.Token)\n\t\tif err == nil && ok {\n\t\t\treturn true\n\t\t}\n\t}\n\tif groupname == "" {\n\t\treturn false\n\t}',
+  '','','behaviour-preserving: a global admin token also administers groups? NO - this widens the token; expected R17.2')
+M[-1]['expect_rule']='R17.2'; M[-1]['expect_key_contains']='return true'
+m('C17','isadmin-error-ignored',A,
+  '\t\t\tok, err := u.Password.Match(creds.Password)\n\t\t\tif err == nil && ok {','\t\t\tok, err := u.Password.Match(creds.Password)\n\t\t\t_ = err\n\t\t\tif ok || creds.Password == "" {',
+  'R17.2','return true','empty password accepted as explicit password')
+m('C17','sanitise-keeps-keys',D,
+  '\tdesc.WildcardUser = nil\n\tdesc.AuthKeys = nil\n','\tdesc.WildcardUser = nil\n',
+  'R17.3','clears AuthKeys','token verification keys in API responses')
+m('C17','sanitise-user-keeps-password',D,
+  '\tu.Password = Password{}\n\treturn u, makeETag','\treturn u, makeETag',
+  'R17.3','GetSanitisedUser clears Password','password hashes in API responses')
+m('C17','response-unsanitised',A,
+  '\t\tdesc, etag, err := group.GetSanitisedDescription(g)\n\t\tif err != nil {\n\t\t\thttpError(w, err)\n\t\t\treturn\n\t\t}\n',
+  '\t\t_, etag, err := group.GetSanitisedDescription(g)\n\t\tif err != nil {\n\t\t\thttpError(w, err)\n\t\t\treturn\n\t\t}\n\t\tdesc, _ := group.GetDescription(g)\n',
+  'R17.4','response of type *group.Description','the raw definition is sent')
+m('C17','update-drops-users',D,
+  '\t\tnewdesc.Users = old.Users\n','',
+  'R17.5','carries the stored secrets over','updating a group deletes all its users')
+m('C17','update-accepts-keys',D,
+  'if desc.Users != nil || desc.WildcardUser != nil || desc.AuthKeys != nil {','if desc.Users != nil || desc.WildcardUser != nil {',
+  'R17.5','refuses secrets in the input','keys replaceable through the description endpoint')
+m('C17','updateuser-keeps-input-password',D,
+  '\tnewuser.Password = old.Password\n','\t_ = old\n',
+  'R17.5','UpdateUser: carries the stored password over','updating a user clears its password')
+m('C17','setkeys-clears-users',D,
+  '\tdesc.AuthKeys = keys\n\treturn rewriteDescriptionFile(desc.FileName, desc)','\tdesc.AuthKeys = keys\n\tdesc.WildcardUser = nil\n\treturn rewriteDescriptionFile(desc.FileName, desc)',
+  'R17.5','SetKeys','setting keys removes the wildcard user')
+m('C17','benign-auth-helper-var',A,
+  '\t\tif !checkAdmin(w, r, "") {\n\t\t\treturn\n\t\t}\n\t\tif r.Method != "HEAD" && r.Method != "GET" {\n\t\t\tmethodNotAllowed(w, "HEAD, GET")\n\t\t\treturn\n\t\t}\n\t\tw.Header().Set("cache-control", "no-cache")',
+  '\t\tif checkAdmin(w, r, "") == false {\n\t\t\treturn\n\t\t}\n\t\tif r.Method != "HEAD" && r.Method != "GET" {\n\t\t\tmethodNotAllowed(w, "HEAD, GET")\n\t\t\treturn\n\t\t}\n\t\tw.Header().Set("cache-control", "no-cache")',
+  '','','auth test written as == false',benign=True)
